@@ -140,6 +140,10 @@ def table_frame(spec: dict, dtag: str = "D"):
     data = {}
     schema = {}
     for lvl, keys in enumerate(spec.get("page_by") or []):
+        if spec.get("page_by_numeric") == "float":  # float group values; the key "nan" is NaN (one value: NaN rows form one group)
+            data[f"g{lvl}"] = [None if k is None else (float("nan") if k == "nan" else float(k) + 0.5) for k in keys]
+            schema[f"g{lvl}"] = pl.Float64
+            continue
         if spec.get("page_by_numeric"):  # integer group values (0 is a legitimate, falsy, value)
             data[f"g{lvl}"] = [None if k is None else int(k) for k in keys]
             schema[f"g{lvl}"] = pl.Int64
@@ -181,6 +185,23 @@ def _apply_heights(spec, data, shown, widths_in):
     j = shown.index(col)
     font = spec.get("font", 1)
     size = spec.get("size", 9)
+    ind = spec.get("indent_wrap")  # "lead" / "nbsp": 0.7 column widths of the text's extent are leading blanks / no-break spaces
+    if ind:
+        ch = " " if ind == "lead" else "\u00a0"
+
+        def indented(v, lines):
+            full = fill_to_lines(v, lines, widths_in[j], font, size)
+            pad = ""
+            while text_width_in(pad, font, size) < 0.7 * widths_in[j]:
+                pad += ch
+            body_ = v
+            # the words after the indent: what is left of the mid-band extent
+            while text_width_in(pad + body_, font, size) < text_width_in(full, font, size):
+                body_ += " ww"
+            return pad + body_
+
+        data[col] = [indented(v, heights[r]) if heights[r] > 1 else v for r, v in enumerate(data[col])]
+        return
     data[col] = [fill_to_lines(v, heights[r], widths_in[j], font, size) if heights[r] > 1 else v
                  for r, v in enumerate(data[col])]
 
@@ -199,7 +220,9 @@ def expected_widths(rel, total):
     return [total * w / s for w in rel]
 
 
-def _text_component(cls, tag, nlines, attrs, text=None):
+def _text_component(cls, tag, nlines, attrs, text=None, none=False):
+    if none:               # the component object exists but its text is None (spec keys footnote_text_none / source_text_none)
+        return cls(text=None, **(attrs or {}))
     if text is not None:   # verbatim text without a sentinel tag (spec keys footnote_text / source_text), e.g. a blank spacer " "
         return cls(text=text, **(attrs or {}))
     text = [f"{tag}{i}" for i in range(nlines)]
@@ -226,13 +249,13 @@ def build(spec: dict) -> Built:
         n_lines = 2 if fn.endswith("2") else 1
         kw["rtf_footnote"] = _text_component(rtf.RTFFootnote, "F", n_lines,
                                              {"as_table": fn.startswith("table"), **(spec.get("footnote_attrs") or {})},
-                                             text=spec.get("footnote_text"))
+                                             text=spec.get("footnote_text"), none=bool(spec.get("footnote_text_none")))
     src = spec.get("source")
     if src:
         n_lines = 2 if src.endswith("2") else 1
         kw["rtf_source"] = _text_component(rtf.RTFSource, "Z", n_lines,
                                            {"as_table": src.startswith("table"), **(spec.get("source_attrs") or {})},
-                                           text=spec.get("source_text"))
+                                           text=spec.get("source_text"), none=bool(spec.get("source_text_none")))
     ph = spec.get("page_header")
     if ph == "default":
         kw["rtf_page_header"] = rtf.RTFPageHeader(**(spec.get("page_header_attrs") or {}))
@@ -314,19 +337,24 @@ def _build_section(spec, page, dtag="D", htag="H") -> Built:
     for dst, src_col in (spec.get("dup_cols") or {}).items():
         data[dst] = list(data[src_col])
     df = pl.DataFrame({c: data[c] for c in order}, schema={c: schema[c] for c in order})
+    # spec["rename"] = {"c0": "index", ...}: user-visible column names (the library must not care what a column is called)
+    ren = {k: v for k, v in (spec.get("rename") or {}).items() if k in df.columns}
+    if ren:
+        df = df.rename(ren)
+    _nm = lambda c: ren.get(c, c)  # noqa: E731
 
     bkw = dict(spec.get("body") or {})
     if rel is not None:
         bkw["col_rel_width"] = list(rel)
     if spec.get("page_by"):
-        bkw["page_by"] = [f"g{l}" for l in range(len(spec["page_by"]))]
+        bkw["page_by"] = [_nm(f"g{l}") for l in range(len(spec["page_by"]))]
         for k in ("new_page", "pageby_row"):
             if k in spec:
                 bkw[k] = spec[k]
     if spec.get("subline_by"):
-        bkw["subline_by"] = [f"u{l}" for l in range(len(spec["subline_by"]))]
+        bkw["subline_by"] = [_nm(f"u{l}") for l in range(len(spec["subline_by"]))]
     if spec.get("group_by"):
-        bkw["group_by"] = [f"k{l}" for l in range(len(spec["group_by"]))]
+        bkw["group_by"] = [_nm(f"k{l}") for l in range(len(spec["group_by"]))]
     if "pageby_header" in spec:
         bkw["pageby_header"] = spec["pageby_header"]
     if "section_new_page" in spec:
